@@ -21,7 +21,7 @@ structure Same (s s' : BSt) : Prop where
   pop : s'.popLog = s.popLog
 
 theorem ThEq.trans {a b c : Th} (h1 : ThEq a b) (h2 : ThEq b c) : ThEq a c :=
-  ⟨h2.buf.trans h1.buf, h2.q.trans h1.q, h2.acc.trans h1.acc, h2.wpos.trans h1.wpos, h2.wh.trans h1.wh, h2.rpos.trans h1.rpos⟩
+  ⟨h2.buf.trans h1.buf, h2.q.trans h1.q, h2.acc.trans h1.acc, h2.wpos.trans h1.wpos, h2.wh.trans h1.wh, h2.rpos.trans h1.rpos, h2.valid.trans h1.valid⟩
 
 theorem Same.refl (s : BSt) : Same s s := ⟨rfl, rfl, fun _ => ThEq.refl _, rfl, rfl, rfl, rfl, fun _ => rfl, rfl⟩
 
@@ -137,7 +137,7 @@ theorem PI.refresh (h : PI none fl T C s) :
   · intro hfr
     exact { h with
       cacheEq := rfl
-      bufCache := fun i hb => h.cacheReg i (h.bufCache i hb)
+      bufCache := fun i hi _ => hi
       cacheReg := fun i hi => hi
       fresh := fun _ i hi => hi
       ord := fun hp => by
@@ -259,40 +259,69 @@ theorem foldl_inv {α β} (P : β → Prop) (f : β → α → β) (l : List α)
   | nil => exact h0
   | cons x xs ih => exact ih _ (hs _ _ h0)
 
-theorem findFirst_spec (s : BSt) (l : List Nat) :
+/-! ### failure counters (site 8 inside) -/
+
+/-- what the proofs assume of the injection runner: it preserves the invariant (for every cut-off, every set
+    of unread contexts, every cache) — true of any sequence of frontend operations (`PI.runInj`) -/
+def InjOK (inj : BSt → Nat → BSt) : Prop :=
+  ∀ fl T C s site, PI none fl T C s → PI none fl T C (inj s site)
+
+theorem InjOK.pio {inj : BSt → Nat → BSt} (hi : InjOK inj) {s : BSt} (h : PIo fl s) (site : Nat) : PIo fl (inj s site) :=
+  (hi _ _ _ _ site h).toPIo
+
+theorem PIo.checkFailures {inj : BSt → Nat → BSt} (hi : InjOK inj) (h : PIo fl s) : PIo fl (checkFailures inj s) := by
+  unfold Backend.checkFailures
+  apply foldl_inv (fun x : BSt => PIo fl x) _ _ _ h
+  intro b i hb
+  simp only
+  split
+  · apply hi.pio
+    exact (hb.same (Same.setTh _ i _ ⟨rfl, rfl, rfl, rfl, rfl, rfl, rfl⟩)).frame rfl
+  · exact hb
+
+theorem findFirst_spec (s : BSt) (l : List Nat) (hq : ∀ i, QC (s.th i)) :
     Same s (cleanupContexts.go.findFirst s l).1 ∧
-    ∀ i, (cleanupContexts.go.findFirst s l).2 = some i → ((cleanupContexts.go.findFirst s l).1.th i).buf = [] := by
+    ∀ i, (cleanupContexts.go.findFirst s l).2 = some i →
+      ((cleanupContexts.go.findFirst s l).1.th i).valid = false ∧ chain ((cleanupContexts.go.findFirst s l).1.th i) = [] := by
   induction l generalizing s with
   | nil => exact ⟨Same.refl _, fun i h => by cases h⟩
   | cons x xs ih =>
     unfold cleanupContexts.go.findFirst
     split
-    · exact ih s
-    · simp only
+    · exact ih s hq
+    · rename_i hv
+      simp only
       split
       · rename_i h2
         refine ⟨same_ctxEmpty s x, fun i hi => ?_⟩
         cases hi
         have e := (same_ctxEmpty s x).th x
-        rw [e.buf]
         simp only [Bool.and_eq_true] at h2
-        replace h2 := h2.1
-        unfold ctxEmpty at h2
-        simp only [Bool.and_eq_true, List.isEmpty_iff] at h2
-        exact h2.2
-      · obtain ⟨i1, i2⟩ := ih (ctxEmpty s x).1
-        exact ⟨(same_ctxEmpty s x).trans i1, i2⟩
+        obtain ⟨b1, b2⟩ := ctxEmpty_true (hq x) h2.1
+        refine ⟨by rw [e.valid]; simpa using hv, ?_⟩
+        rw [e.chain]; simp [chain, b1, b2]
+      · have hs := same_ctxEmpty s x
+        obtain ⟨i1, i2⟩ := ih (ctxEmpty s x).1 (fun i => (hs.th i).qc (hq i))
+        exact ⟨hs.trans i1, i2⟩
 
 /-- an invalidated, drained context leaves the registry and the cache -/
-theorem PIo.remove (h : PIo fl s) (i : Nat) (hb : (s.th i).buf = []) (n : Nat) :
+theorem PIo.remove (h : PIo fl s) (i : Nat) (hv : (s.th i).valid = false) (hc : chain (s.th i) = []) (n : Nat) :
     PIo fl { s with registry := s.registry.filter (· ≠ i), cache := s.cache.filter (· ≠ i), invalidCnt := n } := by
   unfold PIo at *
   exact { h with
     cacheEq := rfl
-    bufCache := fun j hj => by
-      refine List.mem_filter.mpr ⟨h.bufCache j hj, ?_⟩
+    reg := fun j hj => by
+      refine List.mem_filter.mpr ⟨h.reg j hj, ?_⟩
       simp only [ne_eq, decide_not, Bool.not_eq_eq_eq_not, Bool.not_true, decide_eq_false_iff_not]
-      intro hji; rw [hji] at hj; exact hj hb
+      intro hji; rw [hji] at hj; exact hj hc
+    ctxReg := fun a x j hx hj => by
+      obtain ⟨r1, r2⟩ := h.ctxReg a x j hx hj
+      refine ⟨List.mem_filter.mpr ⟨r1, ?_⟩, r2⟩
+      simp only [ne_eq, decide_not, Bool.not_eq_eq_eq_not, Bool.not_true, decide_eq_false_iff_not]
+      intro hji; rw [hji, hv] at r2; cases r2
+    bufCache := fun j hjr hj => by
+      obtain ⟨h1, h2⟩ := List.mem_filter.mp hjr
+      exact List.mem_filter.mpr ⟨h.bufCache j h1 hj, h2⟩
     cacheReg := fun j hj => by
       obtain ⟨h1, h2⟩ := List.mem_filter.mp hj
       exact List.mem_filter.mpr ⟨h.cacheReg j h1, h2⟩
@@ -311,7 +340,7 @@ theorem PIo.cleanupGo (fuel : Nat) (s : BSt) (h : PIo fl s) : PIo fl (cleanupCon
   | zero => exact h
   | succ n ih =>
     unfold cleanupContexts.go
-    obtain ⟨f1, f2⟩ := findFirst_spec s s.cache
+    obtain ⟨f1, f2⟩ := findFirst_spec s s.cache h.qc
     split
     · rename_i s1 heq
       rw [heq] at f1; exact h.same f1
@@ -319,8 +348,8 @@ theorem PIo.cleanupGo (fuel : Nat) (s : BSt) (h : PIo fl s) : PIo fl (cleanupCon
       rw [heq] at f1 f2
       apply ih
       have h1 : PIo fl s1 := h.same f1
-      have h2 := h1.remove i (f2 i rfl) (counterMod s1.cfg (s1.invalidCnt + 2 ^ s1.cfg.invalidBits - 1))
-      exact h2.same (Same.setTh _ i _ ⟨rfl, rfl, rfl, rfl, rfl, rfl⟩)
+      have h2 := h1.remove i (f2 i rfl).1 (f2 i rfl).2 (counterMod s1.cfg (s1.invalidCnt + 2 ^ s1.cfg.invalidBits - 1))
+      exact h2.same (Same.setTh _ i _ ⟨rfl, rfl, rfl, rfl, rfl, rfl, rfl⟩)
 
 theorem PIo.cleanupContexts (h : PIo fl s) : PIo fl (cleanupContexts s) := by
   unfold Backend.cleanupContexts
@@ -347,25 +376,5 @@ theorem PIo.cleanupLoggers (h : PIo fl s) : PIo fl (cleanupLoggers s) := by
       split
       · exact hb.frame rfl
       · exact hb
-
-/-! ### failure counters (site 8 inside) -/
-
-/-- what the proofs assume of the injection runner: it preserves the invariant (for every cut-off, every set
-    of unread contexts, every cache) — true of any sequence of frontend operations (`PI.runInj`) -/
-def InjOK (inj : BSt → Nat → BSt) : Prop :=
-  ∀ fl T C s site, PI none fl T C s → PI none fl T C (inj s site)
-
-theorem InjOK.pio {inj : BSt → Nat → BSt} (hi : InjOK inj) {s : BSt} (h : PIo fl s) (site : Nat) : PIo fl (inj s site) :=
-  (hi _ _ _ _ site h).toPIo
-
-theorem PIo.checkFailures {inj : BSt → Nat → BSt} (hi : InjOK inj) (h : PIo fl s) : PIo fl (checkFailures inj s) := by
-  unfold Backend.checkFailures
-  apply foldl_inv (fun x : BSt => PIo fl x) _ _ _ h
-  intro b i hb
-  simp only
-  split
-  · apply hi.pio
-    exact (hb.same (Same.setTh _ i _ ⟨rfl, rfl, rfl, rfl, rfl, rfl⟩)).frame rfl
-  · exact hb
 
 end Backend.PB
